@@ -334,7 +334,7 @@ class Controller:
             if n > maxsteps:
                 raise Infra("no quiescence after %d steps" % maxsteps)
             if pr is None:
-                if not self.poll_parked():
+                if not self.poll_parked() and not any(p.state == "want" for p in self.procs.values()):
                     break
         self._reap()
         pr = self.send_proc()
